@@ -73,4 +73,201 @@ def writtenRhumbInverse (outmask : Nat) : List Out :=
 def encode (l : List Out) : Nat :=
   (Out.all.zipIdx.filter fun p => l.contains p.1).foldl (fun acc p => acc ||| (1 <<< p.2)) 0
 
+/-! ## Dataflow model of `GenPosition`'s output assembly (hand-written from `GeodesicLine.cpp` /
+`GeodesicLineExact.cpp`; not executed by the driver — validated by the harness's bit-for-bit mask-independence
+oracle).
+
+Terms are expression trees over uninterpreted symbols: the inputs, the fields of the line object (a field that
+`LineInit` sets only under a `_caps & CAP_x` test is `uninit` when that bit is missing), the literal `0` that
+initialises `B12`/`E2`/`AB1`, and uninterpreted operations.  What is modelled is *which* intermediate quantities each
+output is computed from, and under *which* tests of the reduced mask `outmask & _caps & OUT_MASK` each assignment
+is made. -/
+
+inductive T where
+  | sym (name : String)
+  | uninit (name : String)
+  | zero
+  | ap (f : String) (args : List T)
+
+/-- a field that `LineInit` computes only when `_caps` has capability bit `k` -/
+def fld (lcaps k : Nat) (name : String) : T := if lcaps.testBit k then .sym name else .uninit name
+
+/-- the test `outmask & FLAG` on the reduced mask -/
+def want (e : Enum) (eff : Nat) (o : Out) : Bool := (eff &&& e.flag o) != 0
+def wantUnroll (e : Enum) (eff : Nat) : Bool := (eff &&& e.longUnroll) != 0
+/-- `outmask & (DISTANCE | REDUCEDLENGTH | GEODESICSCALE)` -/
+def wantLen (e : Enum) (eff : Nat) : Bool := (eff &&& (e.distance ||| e.reducedlength ||| e.geodesicscale)) != 0
+/-- `outmask & (REDUCEDLENGTH | GEODESICSCALE)` -/
+def wantRG (e : Enum) (eff : Nat) : Bool := (eff &&& (e.reducedlength ||| e.geodesicscale)) != 0
+
+/-- the part common to both line classes after `sig12`, `ssig12`, `csig12` are known: the always-computed
+    quantities.  Returns `(ssig2, csig2 before the degeneracy patch, csig2, sbet2, cbet2, salp2, calp2)` -/
+def common (ssig12 csig12 : T) : T × T × T × T × T × T × T :=
+  let ssig2 := T.ap "ssig1*csig12+csig1*ssig12" [.sym "_ssig1", .sym "_csig1", ssig12, csig12]
+  let csig2r := T.ap "csig1*csig12-ssig1*ssig12" [.sym "_ssig1", .sym "_csig1", ssig12, csig12]
+  let sbet2 := T.ap "mul" [.sym "_calp0", ssig2]
+  let cbet2r := T.ap "hypot" [.sym "_salp0", .ap "mul" [.sym "_calp0", csig2r]]
+  let cbet2 := T.ap "cbet2==0?tiny:cbet2" [cbet2r, .sym "tiny_"]
+  let csig2 := T.ap "cbet2==0?tiny:csig2" [cbet2r, csig2r, .sym "tiny_"]
+  (ssig2, csig2r, csig2, sbet2, cbet2, .sym "_salp0", .ap "mul" [.sym "_calp0", csig2])
+
+def latTerm (sbet2 cbet2 : T) : T := .ap "atan2d" [sbet2, .ap "mul" [.sym "_f1", cbet2]]
+def aziTerm (salp2 calp2 : T) : T := .ap "atan2d" [salp2, calp2]
+
+/-- `salp12`, `calp12` of the area (both branches of `_calp0 == 0 || _salp0 == 0` read the same quantities) -/
+def alp12 (salp2 calp2 ssig12 csig12 csig2 : T) : T :=
+  .ap "atan2(salp12,calp12)" [.sym "_calp0", .sym "_salp0", salp2, calp2, .sym "_salp1", .sym "_calp1",
+    ssig12, csig12, .sym "_ssig1", .sym "_csig1", csig2]
+
+/-- series: `(sig12, ssig12, csig12, B12)` as they stand when the common part starts; `x` = `s12_a12` -/
+def sigG (lc : Nat) (arcmode bigf : Bool) (x : T) : T × T × T × T :=
+  let A1m1 := fld lc 0 "_aA1m1"; let C1a := fld lc 0 "_cC1a"; let B11 := fld lc 0 "_bB11"
+  let stau1 := fld lc 0 "_stau1"; let ctau1 := fld lc 0 "_ctau1"
+  let C1pa := fld lc 1 "_cC1pa"
+  if arcmode then (.ap "mul degree" [x], .ap "sind" [x], .ap "cosd" [x], .zero)
+  else
+    let tau12 := T.ap "s12/(b*(1+A1m1))" [x, .sym "_b", A1m1]
+    let B12a := T.ap "-SinCosSeries(C1p)(tau1+tau12)" [stau1, ctau1, tau12, C1pa]
+    let sig12a := T.ap "tau12-(B12-B11)" [tau12, B12a, B11]
+    if bigf then
+      let ssig2n := T.ap "ssig1*csig12+csig1*ssig12" [.sym "_ssig1", .sym "_csig1", .ap "sin" [sig12a], .ap "cos" [sig12a]]
+      let csig2n := T.ap "csig1*csig12-ssig1*ssig12" [.sym "_ssig1", .sym "_csig1", .ap "sin" [sig12a], .ap "cos" [sig12a]]
+      let B12n := T.ap "SinCosSeries(C1)" [ssig2n, csig2n, C1a]
+      let sig12n := T.ap "newton" [sig12a, A1m1, B12n, B11, x, .sym "_b", .sym "_k2", ssig2n]
+      (sig12n, .ap "sin" [sig12n], .ap "cos" [sig12n], B12n)
+    else (sig12a, .ap "sin" [sig12a], .ap "cos" [sig12a], B12a)
+
+/-- exact: `(sig12, ssig12, csig12, E2)` -/
+def sigX (lc : Nat) (arcmode : Bool) (x : T) : T × T × T × T :=
+  let E0 := fld lc 0 "_eE0"; let E1 := fld lc 0 "_eE1"; let stau1 := fld lc 0 "_stau1"; let ctau1 := fld lc 0 "_ctau1"
+  if arcmode then (.ap "mul degree" [x], .ap "sind" [x], .ap "cosd" [x], .zero)
+  else
+    let tau12 := T.ap "s12/(b*E0)" [x, .sym "_b", E0]
+    let E2a := T.ap "-deltaEinv(tau1+tau12)" [.sym "_eE", stau1, ctau1, tau12]
+    let sig12a := T.ap "tau12-(E2-E1)" [tau12, E2a, E1]
+    (sig12a, .ap "sin" [sig12a], .ap "cos" [sig12a], E2a)
+
+/-- `GeodesicLine::GenPosition` (series): the term assigned to output `o`, `none` when the output is not assigned.
+    `lc` = `_caps`, `eff` = the reduced mask, `bigf` = `fabs(_f) > 0.01`. -/
+def genPosG (e : Enum) (lc eff : Nat) (arcmode bigf : Bool) (x : T) (o : Out) : Option T :=
+  let A1m1 := fld lc 0 "_aA1m1"; let C1a := fld lc 0 "_cC1a"; let B11 := fld lc 0 "_bB11"
+  let A2m1 := fld lc 2 "_aA2m1"; let C2a := fld lc 2 "_cC2a"; let B21 := fld lc 2 "_bB21"
+  let C3a := fld lc 3 "_cC3a"; let A3c := fld lc 3 "_aA3c"; let B31 := fld lc 3 "_bB31"
+  let C4a := fld lc 4 "_cC4a"; let A4 := fld lc 4 "_aA4"; let B41 := fld lc 4 "_bB41"
+  let (sig12, ssig12, csig12, B12pre) := sigG lc arcmode bigf x
+  let (ssig2, csig2r, csig2, sbet2, cbet2, salp2, calp2) := common ssig12 csig12
+  let dn2 := T.ap "sqrt(1+k2*ssig2^2)" [.sym "_k2", ssig2]
+  let B12 := if wantLen e eff && (arcmode || bigf) then T.ap "SinCosSeries(C1)" [ssig2, csig2r, C1a] else B12pre
+  let AB1 := if wantLen e eff then T.ap "(1+A1m1)*(B12-B11)" [A1m1, B12, B11] else .zero
+  let J12 := T.ap "(A1m1-A2m1)*sig12+(AB1-AB2)" [A1m1, A2m1, sig12, AB1,
+      .ap "(1+A2m1)*(B22-B21)" [A2m1, .ap "SinCosSeries(C2)" [ssig2, csig2, C2a], B21]]
+  let t := T.ap "k2*(ssig2-ssig1)*(ssig2+ssig1)/(dn1+dn2)" [.sym "_k2", ssig2, .sym "_ssig1", .sym "_dn1", dn2]
+  match o with
+  | .s12 => if want e eff .s12 then some (if arcmode then .ap "b*((1+A1m1)*sig12+AB1)" [.sym "_b", A1m1, sig12, AB1] else x) else none
+  | .lon2 =>
+    if want e eff .lon2 then
+      let somg2 := T.ap "mul" [.sym "_salp0", ssig2]
+      let E := T.ap "copysign1" [.sym "_salp0"]
+      let omg12 := if wantUnroll e eff
+        then T.ap "E*(sig12-(atan2(ssig2,csig2)-atan2(ssig1,csig1))+(atan2(E*somg2,comg2)-atan2(E*somg1,comg1)))"
+               [E, sig12, ssig2, csig2, .sym "_ssig1", .sym "_csig1", somg2, .sym "_somg1", .sym "_comg1"]
+        else T.ap "atan2(somg2*comg1-comg2*somg1,comg2*comg1+somg2*somg1)" [somg2, csig2, .sym "_somg1", .sym "_comg1"]
+      let lon12 := T.ap "(omg12+A3c*(sig12+(SinCosSeries(C3)-B31)))/degree" [omg12, A3c, sig12, .ap "SinCosSeries(C3)" [ssig2, csig2, C3a], B31]
+      some (if wantUnroll e eff then .ap "add" [.sym "_lon1", lon12]
+            else .ap "AngNormalize(AngNormalize(lon1)+AngNormalize(lon12))" [.sym "_lon1", lon12])
+    else none
+  | .lat2 => if want e eff .lat2 then some (latTerm sbet2 cbet2) else none
+  | .azi2 => if want e eff .azi2 then some (aziTerm salp2 calp2) else none
+  | .m12 => if wantRG e eff && want e eff .m12 then
+      some (.ap "b*((dn2*(csig1*ssig2)-dn1*(ssig1*csig2))-csig1*csig2*J12)" [.sym "_b", dn2, .sym "_csig1", ssig2, .sym "_dn1", .sym "_ssig1", csig2, J12]) else none
+  | .M12 => if wantRG e eff && want e eff .M12 then
+      some (.ap "csig12+(t*ssig2-csig2*J12)*ssig1/dn1" [csig12, t, ssig2, csig2, J12, .sym "_ssig1", .sym "_dn1"]) else none
+  | .M21 => if wantRG e eff && want e eff .M21 then
+      some (.ap "csig12-(t*ssig1-csig1*J12)*ssig2/dn2" [csig12, t, .sym "_ssig1", .sym "_csig1", J12, ssig2, dn2]) else none
+  | .S12 => if want e eff .S12 then
+      some (.ap "c2*alp12+A4*(B42-B41)" [.sym "_c2", alp12 salp2 calp2 ssig12 csig12 csig2, A4,
+        .ap "SinCosSeries(C4)" [ssig2, csig2, C4a], B41]) else none
+
+/-- `GeodesicLineExact::GenPosition`; capability bits: E = 0, D = 2, H = 3, C4 = 4 -/
+def genPosX (e : Enum) (lc eff : Nat) (arcmode : Bool) (x : T) (o : Out) : Option T :=
+  let E0 := fld lc 0 "_eE0"; let E1 := fld lc 0 "_eE1"
+  let D0 := fld lc 2 "_dD0"; let D1 := fld lc 2 "_dD1"
+  let H0 := fld lc 3 "_hH0"; let H1 := fld lc 3 "_hH1"
+  let C4a := fld lc 4 "_cC4a"; let A4 := fld lc 4 "_aA4"; let B41 := fld lc 4 "_bB41"
+  let (sig12, ssig12, csig12, E2pre) := sigX lc arcmode x
+  let (ssig2, csig2r, csig2, sbet2, cbet2, salp2, calp2) := common ssig12 csig12
+  let dn2 := T.ap "Delta" [.sym "_eE", ssig2, csig2r]
+  let E2 := if wantLen e eff && arcmode then T.ap "deltaE" [.sym "_eE", ssig2, csig2r, dn2] else E2pre
+  let AB1 := if wantLen e eff then T.ap "E0*(E2-E1)" [E0, E2, E1] else .zero
+  let J12 := T.ap "k2*D0*(sig12+(deltaD-D1))" [.sym "_k2", D0, sig12, .ap "deltaD" [.sym "_eE", ssig2, csig2, dn2], D1]
+  let t := T.ap "k2*(ssig2-ssig1)*(ssig2+ssig1)/(dn1+dn2)" [.sym "_k2", ssig2, .sym "_ssig1", .sym "_dn1", dn2]
+  match o with
+  | .s12 => if want e eff .s12 then some (if arcmode then .ap "b*(E0*sig12+AB1)" [.sym "_b", E0, sig12, AB1] else x) else none
+  | .lon2 =>
+    if want e eff .lon2 then
+      let somg2 := T.ap "mul" [.sym "_salp0", ssig2]
+      let E := T.ap "copysign1" [.sym "_salp0"]
+      let cchi2 := T.ap "f1*dn2*comg2" [.sym "_f1", dn2, csig2]
+      let chi12 := if wantUnroll e eff
+        then T.ap "E*(atan2(ssig12,csig12)-(atan2(ssig2,csig2)-atan2(ssig1,csig1))+(atan2(E*somg2,cchi2)-atan2(E*somg1,cchi1)))"
+               [E, ssig12, csig12, ssig2, csig2, .sym "_ssig1", .sym "_csig1", somg2, cchi2, .sym "_somg1", .sym "_cchi1"]
+        else T.ap "atan2(somg2*cchi1-cchi2*somg1,cchi2*cchi1+somg2*somg1)" [somg2, cchi2, .sym "_somg1", .sym "_cchi1"]
+      let lon12 := T.ap "(chi12-e2/f1*salp0*H0*(sig12+(deltaH-H1)))/degree"
+        [chi12, .sym "_e2", .sym "_f1", .sym "_salp0", H0, sig12, .ap "deltaH" [.sym "_eE", ssig2, csig2, dn2], H1]
+      some (if wantUnroll e eff then .ap "add" [.sym "_lon1", lon12]
+            else .ap "AngNormalize(AngNormalize(lon1)+AngNormalize(lon12))" [.sym "_lon1", lon12])
+    else none
+  | .lat2 => if want e eff .lat2 then some (latTerm sbet2 cbet2) else none
+  | .azi2 => if want e eff .azi2 then some (aziTerm salp2 calp2) else none
+  | .m12 => if wantRG e eff && want e eff .m12 then
+      some (.ap "b*((dn2*(csig1*ssig2)-dn1*(ssig1*csig2))-csig1*csig2*J12)" [.sym "_b", dn2, .sym "_csig1", ssig2, .sym "_dn1", .sym "_ssig1", csig2, J12]) else none
+  | .M12 => if wantRG e eff && want e eff .M12 then
+      some (.ap "csig12+(t*ssig2-csig2*J12)*ssig1/dn1" [csig12, t, ssig2, csig2, J12, .sym "_ssig1", .sym "_dn1"]) else none
+  | .M21 => if wantRG e eff && want e eff .M21 then
+      some (.ap "csig12-(t*ssig1-csig1*J12)*ssig2/dn2" [csig12, t, .sym "_ssig1", .sym "_csig1", J12, ssig2, dn2]) else none
+  | .S12 => if want e eff .S12 then
+      some (.ap "c2*alp12+A4*(B42-B41)" [.sym "_c2", alp12 salp2 calp2 ssig12 csig12 csig2, A4,
+        .ap "A4==0?0:DST::integral(C4)" [A4, ssig2, csig2, C4a], B41]) else none
+
+/-- `GenPosition` as a whole on symbolic values: nothing is assigned unless the point can be located -/
+def genPosition (e : Enum) (exact : Bool) (caps outmask : Nat) (arcmode bigf : Bool) (x : T) (o : Out) : Option T :=
+  if locatable e caps arcmode then
+    (if exact then genPosX e (lineCaps e caps) (effective e caps outmask) arcmode x o
+     else genPosG e (lineCaps e caps) (effective e caps outmask) arcmode bigf x o)
+  else none
+
+/-- the value returned by `GenPosition` (`a12`; `none` = NaN): computed before any test of `outmask` -/
+def genPositionRet (e : Enum) (exact : Bool) (caps : Nat) (arcmode bigf : Bool) (x : T) : Option T :=
+  if locatable e caps arcmode then
+    some (if arcmode then x
+          else .ap "/degree" [(if exact then sigX (lineCaps e caps) false x else sigG (lineCaps e caps) false bigf x).1])
+  else none
+
+/-! ### the third point of a line object (`_s13`, `_a13`; `none` = NaN) -/
+
+structure Line where
+  exact : Bool
+  caps : Nat            -- as given to `LineInit`
+  s13 : Option T := none
+  a13 : Option T := none
+
+/-- `SetDistance(s13)`: `_s13 = s13; _a13 = GenPosition(false, _s13, 0u, …)` -/
+def setDistance (e : Enum) (bigf : Bool) (L : Line) (s : T) : Line :=
+  { L with s13 := some s, a13 := genPositionRet e L.exact L.caps false bigf s }
+
+/-- `SetArc(a13)`: `_a13 = a13; _s13 = NaN; GenPosition(true, _a13, DISTANCE, …, _s13, …)` -/
+def setArc (e : Enum) (bigf : Bool) (L : Line) (a : T) : Line :=
+  { L with a13 := some a, s13 := genPosition e L.exact L.caps e.distance true bigf a .s12 }
+
+/-- `Geodesic(Exact)::InverseLine`: `a12` = the arc returned by `GenInverse`;
+    `if (caps & (OUT_MASK & DISTANCE_IN)) caps |= DISTANCE`, then the line constructor with `arcmode = true` -/
+def inverseLine (e : Enum) (exact bigf : Bool) (caps : Nat) (a12 : T) : Line :=
+  let caps' := if (caps &&& (e.outMask &&& e.distanceIn)) != 0 then caps ||| e.distance else caps
+  setArc e bigf { exact := exact, caps := caps' } a12
+
+/-- `GenDirectLine`: `if (!arcmode) caps |= DISTANCE_IN`, then `GenSetDistance(arcmode, s12_a12)` -/
+def directLine (e : Enum) (exact bigf : Bool) (caps : Nat) (arcmode : Bool) (x : T) : Line :=
+  let L : Line := { exact := exact, caps := if arcmode then caps else caps ||| e.distanceIn }
+  if arcmode then setArc e bigf L x else setDistance e bigf L x
+
 end GeoVerif.Mask
